@@ -60,6 +60,31 @@ fn walk_ops(rng: &mut Rng) -> (Vec<Op>, usize, String) {
     )
 }
 
+/// numbering at its upper edge: a group of 250-255 fragments delivered in order (sometimes
+/// with a gap or a duplicate near the end), followed by fragments numbered around 255 and 1
+fn long_group_ops(rng: &mut Rng) -> (Vec<Op>, usize, String) {
+    let n = *rng.pick(&[255u8, 255, 254, 250]);
+    let id = *rng.pick(&[None, Some(0u8), Some(9), Some(255)]);
+    let stop = if rng.ratio(1, 2) { n } else { n - rng.range(1, 3) as u8 };
+    let mut ops = Vec::new();
+    let line = |k: u8, nn: u8, decode: bool| -> Op {
+        let mut l = LineOp::plain(0, make_line(ADDR, nn, k, id, b"A", b"1", 0), decode);
+        l.form_ok = true;
+        Op::Line(l)
+    };
+    for k in 1..=stop {
+        ops.push(line(k, n, false));
+    }
+    for _ in 0..rng.range(1, 5) {
+        let k = *rng.pick(&[255u8, 255, 254, 253, 1, 2, stop, stop.wrapping_add(1)]);
+        let nn = *rng.pick(&[255u8, 255, n, k.max(2)]);
+        if k >= 1 && k <= nn {
+            ops.push(line(k, nn, rng.ratio(1, 2)));
+        }
+    }
+    (ops, 1, format!("shape=long-group n={} id={:?} delivered-up-to={}", n, id, stop))
+}
+
 impl Prop for C06 {
     fn id(&self) -> &'static str {
         "C06"
@@ -67,7 +92,9 @@ impl Prop for C06 {
 
     fn generate(&self, seed: u64, run: u64) -> Scenario {
         let mut rng = Rng::new(seed);
-        let (ops, nodes, desc) = if rng.ratio(1, 2) {
+        let (ops, nodes, desc) = if rng.ratio(1, 300) {
+            long_group_ops(&mut rng)
+        } else if rng.ratio(1, 2) {
             walk_ops(&mut rng)
         } else {
             let r = chaos_ops(&mut rng, LinkProfile::Reassembly, true, 2, 40);
